@@ -504,7 +504,8 @@ class BlockUploadStream(io.RawIOBase):
         if res_command & BLOCK_SIZE_SPECIFIED:
             self.size, = struct.unpack_from("<L", response, 4)
             logger.debug("Size is %d bytes", self.size)
-        self.crc_supported = bool(res_command & CRC_SUPPORTED)
+        # The CRC is only valid if both client and server support it
+        self.crc_supported = request_crc_support and bool(res_command & CRC_SUPPORTED)
         # Start upload
         request = bytearray(8)
         request[0] = REQUEST_BLOCK_UPLOAD | START_BLOCK_UPLOAD
